@@ -12,7 +12,8 @@ from scenarios.common import R, Speaker, config_text, jclone, make_world, result
 ID = 'C20'
 LEVEL = 'exploration'
 LEVEL_TEXT = (
-    'the real healthcheck loop() runs under a synchronous simulator (scripted check results incl. time-outs, disable-file toggles, a '
+    'the real healthcheck loop() and check() run under a synchronous simulator (a scripted check process: exit status 0, a failure status, '
+    'death by a signal, or one that outlives the alarm and is killed; disable-file toggles, a '
     'virtual clock, SIGTERM / KeyboardInterrupt delivered at a chosen sleep, acknowledgement lines or EOF on stdin); a reference '
     'rise/fall automaton written from the property judges which batch may be emitted at each round; every distinct emitted line is then '
     'fed through a simulated helper pipe to the real reactor (real v6 dispatcher, route parser, RIB) with the named neighbors, where it '
@@ -76,7 +77,11 @@ def generate(rng, tier: str, index: int) -> dict:
         dis = opts['use_disable'] and rng.chance(0.12)
         script.append(r + ('d' if dis else ''))
     exit_mode = rng.choice(['none', 'sigterm', 'interrupt', 'sigterm'])
-    return {'micro_seed': rng.randint(1, 1 << 48), 'knobs': {'tick': 0.002}, 'opts': opts, 'script': script, 'exit': exit_mode, 'stdin_eof_at': rng.choice([None, None, None, rng.randint(0, 20)])}
+    plan = {'micro_seed': rng.randint(1, 1 << 48), 'knobs': {'tick': 0.002}, 'opts': opts, 'script': script, 'exit': exit_mode, 'stdin_eof_at': rng.choice([None, None, None, rng.randint(0, 20)])}
+    # how a failing check command ends: an exit status, or death by a signal (a negative returncode: a crash, the OOM killer)
+    f = rng.fork('fail-codes')
+    plan['fail_codes'] = [f.choice([1, 1, 2, 127, 255, -11, -9, -15]) for _ in range(f.randint(1, 4))]
+    return plan
 
 
 def grid(tier: str):
@@ -159,13 +164,41 @@ def run_helper(plan: dict) -> dict:
             def copy():
                 return {}
 
-    def fake_check(cmd, timeout):
-        if not o['use_disable']:
-            st['round'] += 1
-        st['checks'] += 1
-        if st['round'] >= len(script):
-            raise _Exit('script exhausted')
-        return cur()[0] == 'S'
+        @staticmethod
+        def setpgrp():
+            pass
+
+        @staticmethod
+        def killpg(pid, sig):
+            st['killed'] = st.get('killed', 0) + 1
+
+    # the real check() runs; what it starts is a scripted process: exit status 0, a failure status, death by a signal, or one that
+    # outlives the alarm
+    class FakePopen:
+        pid = 4242
+
+        def __init__(self, cmd, **kw):
+            if not o['use_disable']:
+                st['round'] += 1
+            st['checks'] += 1
+            if st['round'] >= len(script):
+                raise _Exit('script exhausted')
+            self.kind = cur()[0]
+            self.returncode = None
+
+        def communicate(self):
+            if self.kind == 'T' and st.get('alarm_handler') is not None and st.get('alarm_armed'):
+                st['alarm_handler'](14, None)  # raises check()'s Alarm
+            codes = plan.get('fail_codes') or [1]
+            self.returncode = 0 if self.kind == 'S' else codes[st['checks'] % len(codes)]
+            if self.returncode < 0:
+                st['signal_deaths'] = st.get('signal_deaths', 0) + 1
+            return (b'' if st['checks'] % 2 else b'some output\n', None)
+
+    class FakeSubprocess:
+        PIPE = -1
+        STDOUT = -2
+        Popen = FakePopen
 
     class FakeTime:
         @staticmethod
@@ -187,14 +220,18 @@ def run_helper(plan: dict) -> dict:
     class FakeSignal:
         SIGTERM = 15
         SIGALRM = 14
+        SIGKILL = 9
 
         @staticmethod
         def signal(num, handler):
             if num == 15:
                 st['handler'] = handler
+            if num == 14:
+                st['alarm_handler'] = handler
 
         @staticmethod
         def alarm(n):
+            st['alarm_armed'] = n > 0
             return 0
 
     class Out:
@@ -223,11 +260,11 @@ def run_helper(plan: dict) -> dict:
         def exit(code=0):
             raise SystemExit(code)
 
-    saved = {k: getattr(hc, k) for k in ('check', 'time', 'os', 'signal', 'sys')}
+    saved = {k: getattr(hc, k) for k in ('subprocess', 'time', 'os', 'signal', 'sys')}
     import logging
 
     hc.logger.setLevel(logging.CRITICAL + 1)
-    hc.check = fake_check
+    hc.subprocess = FakeSubprocess
     hc.time = FakeTime
     hc.os = FakeOs
     hc.signal = FakeSignal
@@ -244,7 +281,7 @@ def run_helper(plan: dict) -> dict:
     finally:
         for k, v in saved.items():
             setattr(hc, k, v)
-    return {'lines': st['lines'], 'ended': ended, 'checks': st['checks'], 'rounds': st['round'] + 1}
+    return {'lines': st['lines'], 'ended': ended, 'checks': st['checks'], 'rounds': st['round'] + 1, 'signal_deaths': st.get('signal_deaths', 0), 'killed_on_timeout': st.get('killed', 0)}
 
 
 # ------------------------------------------------------------------ reference automaton + line model
@@ -514,7 +551,8 @@ def execute(plan: dict) -> dict:
     s = ''.join(x[0] for x in plan['script'])
     nontrivial = ('S' in s and ('F' in s or 'T' in s)) or any('d' in x for x in plan['script']) or plan['exit'] != 'none'
     return result(
-        w, violations[:1], faults={'check_failures': s.count('F'), 'check_timeouts': s.count('T'), 'disable_toggles': sum(1 for x in plan['script'] if 'd' in x), 'exit_' + plan['exit']: 1},
+        w, violations[:1], faults={'check_failures': s.count('F'), 'check_timeouts': s.count('T'), 'disable_toggles': sum(1 for x in plan['script'] if 'd' in x), 'exit_' + plan['exit']: 1,
+                             'check_killed_by_signal': out.get('signal_deaths', 0), 'check_killed_on_timeout': out.get('killed_on_timeout', 0)},
         probes={'rounds': out['rounds'], 'lines': len(out['lines']), 'distinct_lines_to_daemon': len(distinct[:12])}, nontrivial=nontrivial,
         sample={'rise': plan['opts']['rise'], 'fall': plan['opts']['fall'], 'script': s[:40], 'exit': plan['exit']},
     )  # fmt: skip
